@@ -253,9 +253,14 @@ package broker
 //@ func (e *Engine) Accept(server transport.Server)
 //@   ensures [invariant] e.accepting == 1 && tstarted[e.tomb] > 0
 //@   modifies e.accepting, tstarted[e.tomb]
+// Close must not hold the engine's mutex while it waits for the acceptors:
+// an acceptor that has just accepted a connection calls Handle, which locks
+// that mutex (Accept$1 -> Handle).
+//@ callsites (*Engine).Handle: (*Engine).Accept$1
 //@ func (e *Engine) Close()
 //@   requires [unlocked] held[e.mutex] == 0
 //@   requires [invariant] engine_inv(e)
+//@   at call 1 Wait assert [not-holding-while-waiting] held[e.mutex] == 0
 //@   ensures [released] held == old(held)
 //@   ensures [dying] tdying[e.tomb]
 //@   modifies held, tdying[e.tomb]
